@@ -346,22 +346,18 @@ func gen(g *core.G) {
 	for _, v := range fixedValues(leaves) {
 		emitMatrix(g, v)
 	}
-	n := 2
-	if g.Thorough() {
-		n = 3
-	}
-	for _, v := range smallUniverse(n) {
+	// exhaustive small universe: all arrays of <= 3 elements over the seven templates (thorough: <= 4 is 2800 arrays, sampled)
+	for _, v := range smallUniverse(3) {
 		emitMatrix(g, v)
 	}
-	// arrays of three with a repetition (the shape of the dangling-reference defect), sampled in the quick tier
-	if !g.Thorough() {
-		u3 := smallUniverse(3)
-		for i := 0; i < 40; i++ {
-			emitMatrix(g, u3[g.Rng.Intn(len(u3))])
+	if g.Thorough() {
+		u4 := smallUniverse(4)
+		for i := 0; i < 600; i++ {
+			emitMatrix(g, u4[g.Rng.Intn(len(u4))])
 		}
 	}
 	// random DAGs with deliberate sharing
-	for i := 0; i < 110*g.Scale; i++ {
+	for i := 0; i < 300*g.Scale/2+150; i++ {
 		vg := &vgen{r: g.Rng, leaves: leaves}
 		v := vg.value(1+g.Rng.Intn(3), false)
 		emitMatrix(g, v.sx.String())
